@@ -125,6 +125,24 @@ def w_emb_words(task):
     return acc, zero_field_accepted, reserialised_differs
 
 
+def w_emb_words_after_other_codes(task):
+    """the same sweep, but every word has just been looked at by the other codes of the library that work on words of the same length
+    (the extended Hamming (16,11,4) of the embedded-LC rows shares its helpers with the QR code of the EMB field) - as happens when a
+    voice superframe is parsed: embedded LC rows and EMB words alternate"""
+    from okdmr.dmrlib.etsi.fec.hamming_16_11_4 import Hamming16114
+    import numpy as _np
+
+    lo, hi = task
+    for w in range(lo, hi):
+        s = bits_of(w, 16)
+        try:
+            Hamming16114.check(bitarray(s))
+            Hamming16114.check(_np.array([int(c) for c in s]))
+        except Exception:  # noqa: BLE001 - whatever the other code does with the word
+            pass
+    return w_emb_words(task)
+
+
 CODE = {}
 
 
@@ -791,6 +809,9 @@ def run(only=None):
     if want("emb_all_words"):
         exp = sorted(w for w in range(0, 1 << 16, 1 << 9) if w not in CODE["qr"])
         fec_words(rep, nw, "emb_all_words", 16, 9, w_emb_words, exp)
+    if want("emb_all_words_after_the_other_16_bit_code"):
+        exp = sorted(w for w in range(0, 1 << 16, 1 << 9) if w not in CODE["qr"])
+        fec_words(rep, nw, "emb_all_words_after_the_other_16_bit_code", 16, 9, w_emb_words_after_other_codes, exp)
 
     # ---- 2 ------------------------------------------------------------------------------------
     if want("encoded_then_parsed_ok"):
